@@ -33,6 +33,37 @@ class World:
         self.max_level = 0          # deepest template nesting reached
 
 
+def recording_guard(denied, denied_items):
+    """a template class factory: guards that log what they are asked (for Obj instances) and refuse `denied` (object id,
+    attribute) pairs / `denied_items` object ids, with the exception the engine expects (zExceptions.Unauthorized)"""
+    def make(world):
+        from DocumentTemplate import HTML
+        from zExceptions import Unauthorized
+        marker = object()
+        dset = {(o, n) for o, n in denied}
+        iset = set(denied_items)
+
+        class Guarded(HTML):
+            def guarded_getattr(self, inst, name, default=marker):
+                if isinstance(inst, Obj):
+                    world.events.append(['guard', inst._oid, name])
+                    if (inst._oid, name) in dset:
+                        raise Unauthorized(name)
+                if default is marker:
+                    return getattr(inst, name)
+                return getattr(inst, name, default)
+
+            def guarded_getitem(self, ob, index):
+                if isinstance(index, int):
+                    world.events.append(['gitem', 0, index])
+                v = ob[index]
+                if isinstance(v, Obj) and v._oid in iset:
+                    raise Unauthorized('item')
+                return v
+        return Guarded
+    return make
+
+
 class Fn:
     def __init__(self, world, fid, result):
         self.world, self.fid, self.result = world, fid, result
@@ -415,6 +446,8 @@ def print_block(b):
             a.append('no_push_item')
         if o.get('prefix'):
             a.append('prefix=%s' % o['prefix'])
+        if o.get('skip'):
+            a.append('skip_unauthorized')
         out = '<dtml-in %s>%s' % (' '.join(a), print_blocks(body))
         if els is not None:
             out += '<dtml-else>' + print_blocks(els)
@@ -534,6 +567,8 @@ def model_req(case, faults=(), fault_cls='ValueError'):
            'main': case['main'], 'clients': case['clients'], 'mapping': case['mapping'], 'kw': case['kw'],
            'classes': case['classes'], 'denied': case['denied'], 'guard': case['guard'], 'utf8': case['utf8'],
            'fuel': 200000}
+    if case.get('deniedItems'):
+        req['deniedItems'] = case['deniedItems']
     if faults:
         req['faults'] = list(faults)
         req['faultCls'] = fault_cls
